@@ -190,6 +190,7 @@ fn run(cfg: &Cfg, rep: &mut Report) {
     let b = backend();
     rep.rule = format!("backend '{BACKEND}': floor and abs on f32 bit patterns with |x| < 2^31 (quick: 2^28 stratified patterns; thorough: all 2^32), compared exactly with std; rem_euclid(x, m), m > 0, on random and exact-multiple pairs; every approximate function the backend's adapter exports on dense sweeps + random inputs against f64, judged against the fixed per-backend bound table; consequences: tri_fill coverage, sampler addressing, Angle::wrap, normalize; non-trivial = all; distinct by hash of the input bits");
     rep.info("backend", BACKEND);
+    rep.assumptions.push("the fast approximations (mm, fallback) manipulate the exponent field and are judged on normal numbers only; subnormal inputs are driven and counted but not judged for them (libm and std are judged on the whole positive range)".into());
     rep.assumptions.push("'representable range' for floor/abs is |x| < 2^31 (what pixel rounding and texture addressing can use); rem_euclid is judged for m > 0".into());
 
     // pins
@@ -287,6 +288,30 @@ fn run(cfg: &Cfg, rep: &mut Report) {
         if let Some(f) = b.recip_sqrt {
             let x = (10f64.powf(-6.0 + 12.0 * u)) as f32;
             judge_approx(rep, "recip_sqrt", &[x], f(x), 1.0 / (x as f64).sqrt());
+        }
+        // the whole positive range by bit pattern, subnormals included
+        // (odd indices: random pattern; even: stratified)
+        {
+            let bits = if i % 2 == 0 { (u * 2139095039.0) as u32 } else { rng.u32() % 0x7F80_0000 }.max(1);
+            let x = f32::from_bits(bits);
+            let class = if bits < 0x0080_0000 { "subnormal" } else { "normal" };
+            let exact_backend = BACKEND == "libm" || BACKEND == "std";
+            if let Some(f) = b.sqrt {
+                if class == "normal" || exact_backend {
+                    rep.count(&format!("full_range.sqrt.{class}"));
+                    judge_approx(rep, "sqrt", &[x], f(x), (x as f64).sqrt());
+                } else {
+                    rep.count("full_range.subnormal_inputs_of_fast_backend(not judged)");
+                }
+            }
+            if let Some(f) = b.recip_sqrt {
+                // the fast approximations (mm, fallback) are bit tricks on the
+                // exponent field and are only claimed for normal numbers
+                if class == "normal" || exact_backend {
+                    rep.count(&format!("full_range.recip_sqrt.{class}"));
+                    judge_approx(rep, "recip_sqrt", &[x], f(x), 1.0 / (x as f64).sqrt());
+                }
+            }
         }
         if let Some(f) = b.sin {
             let x = ((2.0 * u - 1.0) * 4.0 * pi) as f32;
